@@ -57,6 +57,9 @@ def variants():
                                              'targets': [0x0101 * (i + 1) for i in range(nt)]}))
     v.append(('UDjson', _ud(0x2000, 1, pelgen.json_payload({'a': 'b', 'c': [1, 2, 3]}) and
                              bytes.fromhex(pelgen.json_payload({'a': 'b', 'c': [1, 2, 3]})))))
+    # text that survives loading only as an escape (an unpaired surrogate) and non-ASCII text: whatever the section shows,
+    # the sections around it are still there when the document is printed
+    v.append(('UDsur', _ud(0x2000, 1, b'{"Note": "fan 3 stopped \\ud83d", "Ort": "Z\xc3\xbcrich"}')))
     v.append(('UDtext', _ud(0x2000, 3, b'first line\nsecond line\0\0\0')))
     v.append(('UDhex', _ud(0xABCD, 7, bytes(range(0x30, 0x30 + 21)), ver=3)))
     v.append(('UD1', _ud(0xABCD, 0, b'\x5a')))
